@@ -50,6 +50,7 @@ func main() {
 		c.Family("new", req, newChk, 400)
 		c.Family("batch", req, "batch_case_ok", 200)
 		c.Family("apierr", req, "apierr_case_ok", 400)
+		c.Family("hist", req, "hist_case_ok", 40)
 		fmt.Printf("replay kind=%s\n", k.Kind)
 		switch k.Kind {
 		case "e2e":
@@ -72,6 +73,31 @@ func main() {
 			var a ApiErrJ
 			c.LoadReplay(&a)
 			doApiErr(c, a, true)
+		case "mfr":
+			c.Family("mfr", req, "mfr_case_ok", 100)
+			var m MfrJ
+			c.LoadReplay(&m)
+			doMFR(c, m, true)
+		case "hist":
+			var h HistJ
+			c.LoadReplay(&h)
+			doHist(c, s, h, true)
+		case "hist-concurrent":
+			var h struct {
+				Prefer  bool           `json:"prefer_json"`
+				Items   []BatchItem    `json:"items"`
+				Cut     map[string]int `json:"cut"`
+				Workers int            `json:"workers"`
+				Rounds  int            `json:"rounds"`
+			}
+			c.LoadReplay(&h)
+			cut := map[int]int{}
+			for k, v := range h.Cut {
+				var i int
+				fmt.Sscan(k, &i)
+				cut[i] = v
+			}
+			doHistConcurrent(c, s, h.Prefer, h.Items, cut, h.Workers, h.Rounds)
 		default:
 			panic("unknown replay kind " + k.Kind)
 		}
@@ -95,6 +121,11 @@ func main() {
 	c.Family("batch", req, "batch_case_ok", 100)
 	c.Family("apierr", req, "apierr_case_ok", 400)
 	c.Family("httperr", req, "httperr_case_ok", 400)
+	c.Family("hist", req, "hist_case_ok", 40)
+	c.Family("wrap", req, "wrap_case_ok", 400)
+	c.Family("mqp", req, "mqp_case_ok", 400)
+	c.Family("aetext", req, "aetext_case_ok", 400)
+	c.Family("mfr", req, "mfr_case_ok", 100)
 
 	c.Res.Exhaustive = true
 	c.Res.Rule = "neg: every Accept header made of <=4 classified elements in one value, <=2 elements in each of two values, one element in each of three values (classes ndjson/json/any/other/malformed) x preferJson, exhaustive, plus seeded headers with q-values, parameters, case and spacing variants. " +
@@ -111,4 +142,10 @@ func main() {
 	runBatch(c, s)
 	runApiErr(c)
 	runHTTPErr(c)
+	runHist(c, s)
+	runWrap(c)
+	runMQP(c)
+	runAeText(c)
+	runMFR(c)
+	runEndpoints(c)
 }
